@@ -10,6 +10,7 @@
 #include "utap/prettyprinter.h"
 #include "utap/property.h"
 #include "utap/typechecker.h"
+#include "utap/featurechecker.h"
 
 #include <cxxabi.h>
 #include <fcntl.h>
@@ -40,7 +41,7 @@ static xta_part_t part_of(const std::string& s)
         {"S_EXPONENTIAL_RATE", S_EXPONENTIAL_RATE}, {"S_SELECT", S_SELECT}, {"S_GUARD", S_GUARD}, {"S_SYNC", S_SYNC},
         {"S_ASSIGN", S_ASSIGN}, {"S_EXPRESSION", S_EXPRESSION}, {"S_EXPRESSION_LIST", S_EXPRESSION_LIST},
         {"S_PROPERTY", S_PROPERTY}, {"S_XTA_PROCESS", S_XTA_PROCESS}, {"S_PROBABILITY", S_PROBABILITY},
-        {"S_MESSAGE", S_MESSAGE}, {"S_UPDATE", S_UPDATE}, {"S_CONDITION", S_CONDITION}};
+        {"S_MESSAGE", S_MESSAGE}, {"S_UPDATE", S_UPDATE}, {"S_CONDITION", S_CONDITION}, {"S_INSTANCE_LINE", S_INSTANCE_LINE}};
     auto it = m.find(s);
     if (it == m.end()) throw std::invalid_argument("bad part " + s);
     return it->second;
@@ -84,6 +85,13 @@ static json run_job(const json& job)
             else if (entry == "xml_file") r["ret"] = parse_XML_file(job["file"].get<std::string>().c_str(), &db, newxta);
             else if (entry == "xta") r["ret"] = (int)parse_XTA(text.c_str(), &db, newxta);
             else throw std::invalid_argument("bad entry");
+        } else if (builder == "document" && entry == "part") {
+            // one text block handed straight to the grammar, then static analysis as the document-level entry points do
+            DocumentBuilder db{*doc};
+            if (newxta && job.value("builtins", true)) parse_XTA(utap_builtin_declarations(), &db, newxta, S_DECLARATION, "");
+            if (job.contains("scaffold")) parse_XTA(job["scaffold"].get<std::string>().c_str(), &db, newxta, S_DECLARATION, "");
+            r["ret"] = parse_XTA(text.c_str(), &db, newxta, part_of(job["part"]), "");
+            if (!doc->has_errors()) { TypeChecker tc{*doc}; doc->accept(tc); FeatureChecker fc{*doc}; doc->set_supported_methods(fc.get_supported_methods()); }
         } else if (builder == "document") {
             if (entry == "xml_buffer") r["ret"] = parse_XML_buffer(text.c_str(), doc.get(), newxta);
             else if (entry == "xml_file") r["ret"] = parse_XML_file(job["file"].get<std::string>().c_str(), doc.get(), newxta);
